@@ -1,0 +1,65 @@
+//! # Verification hooks (feature `verif`, off by default)
+//!
+//! Pass-through wrappers that expose the private transactional storage overlay
+//! to an external runtime-monitoring harness. Nothing in here adds behaviour:
+//! every function forwards to the crate-private implementation in `transactions`.
+
+use crate::error::AnyResult;
+use crate::transactions::{transactional as transactional_impl, RepLog, StorageTransaction};
+use cosmwasm_std::{Order, Record, Storage};
+
+/// Write-cache layered over a base store (wraps the private `StorageTransaction`).
+pub struct Overlay<'a>(StorageTransaction<'a>);
+
+impl<'a> Overlay<'a> {
+    /// Creates an empty write-cache over `base`.
+    pub fn new(base: &'a dyn Storage) -> Self {
+        Overlay(StorageTransaction::new(base))
+    }
+
+    /// Consumes the write-cache and returns its replay log.
+    pub fn prepare(self) -> OverlayLog {
+        OverlayLog(self.0.prepare())
+    }
+}
+
+impl Storage for Overlay<'_> {
+    fn get(&self, key: &[u8]) -> Option<Vec<u8>> {
+        self.0.get(key)
+    }
+
+    fn range<'b>(
+        &'b self,
+        start: Option<&[u8]>,
+        end: Option<&[u8]>,
+        order: Order,
+    ) -> Box<dyn Iterator<Item = Record> + 'b> {
+        self.0.range(start, end, order)
+    }
+
+    fn set(&mut self, key: &[u8], value: &[u8]) {
+        self.0.set(key, value)
+    }
+
+    fn remove(&mut self, key: &[u8]) {
+        self.0.remove(key)
+    }
+}
+
+/// Replay log of a write-cache (wraps the private `RepLog`).
+pub struct OverlayLog(RepLog);
+
+impl OverlayLog {
+    /// Replays the logged operations into `storage`.
+    pub fn commit(self, storage: &mut dyn Storage) {
+        self.0.commit(storage)
+    }
+}
+
+/// Forwards to the crate-private `transactional` helper.
+pub fn transactional<F, T>(base: &mut dyn Storage, action: F) -> AnyResult<T>
+where
+    F: FnOnce(&mut dyn Storage, &dyn Storage) -> AnyResult<T>,
+{
+    transactional_impl(base, action)
+}
